@@ -158,6 +158,7 @@ package ledger
 //@   local newMeta *xldgpb.LedgerMeta
 //@   local block *xldgpb.InternalBlock
 //@   ensures one_atomic_write: kvWrites <= old(kvWrites) + 1 && kvDirect == old(kvDirect) && (result == nil ==> kvWrites == old(kvWrites) + 1)
+//@   at Batch.Write assert [C05] only_this_truncation_is_written: sel(batchResetAt, ifacePtr(recv)) == old(kvQueued)
 //@   at Batch.Write assert meta_goes_with_the_removals: recv == batchWrite && sel(sel(batchOp, ifacePtr(recv)), xldgpb.MetaTablePrefix) == 1
 //@   at Ledger.removeBlocks assert removals_in_the_same_batch: $2 == batchWrite && bytesEq($1, block.Blockid)
 //@   at fieldwrite.meta assert [C05] memory_follows_the_disk: err == nil && $1 == newMeta
